@@ -508,11 +508,8 @@ func (filters) Execute(scAny any, keepLog bool) *core.Outcome {
 			}
 			got, _ := DemuxData(data, cfg, out.Log, npk*4+16, astits.DemuxerOptPacketsParser(repl))
 			// expected: for each group in observer order, either its default results or the replacement
+			perGroup := groupResults(groups, obs)
 			for gi, g := range groups {
-				end := len(obs)
-				if gi+1 < len(groups) {
-					end = groups[gi+1].resAt
-				}
 				isRepl := p.Kind == "replacer"
 				if p.Kind == "partial" {
 					for _, x := range p.PIDs {
@@ -527,7 +524,7 @@ func (filters) Execute(scAny any, keepLog bool) *core.Outcome {
 						wantSeq = append(wantSeq, core.Dump(&astits.DemuxerData{PID: g.pid, PES: &astits.PESData{Data: []byte{byte(gi), byte(i), byte(p.Seed)}, Header: &astits.PESHeader{StreamID: 0xbf}}}))
 					}
 				} else {
-					for _, x := range obs[g.resAt:end] {
+					for _, x := range perGroup[gi] {
 						if x.D != nil {
 							wantSeq = append(wantSeq, resKey(x.D, x.Err))
 						}
@@ -595,11 +592,8 @@ func (filters) Execute(scAny any, keepLog bool) *core.Outcome {
 			got, _ := DemuxData(data, cfg, out.Log, npk*4+16, astits.DemuxerOptPacketsParser(fail))
 			var wantSeq, gotSeq []string
 			eofDrainErrs := 0
+			perGroup := groupResults(groups, obs)
 			for gi, g := range groups {
-				end := len(obs)
-				if gi+1 < len(groups) {
-					end = groups[gi+1].resAt
-				}
 				if g.pid != 0 && (gi+p.Seed)%3 == 0 {
 					// The error of a group flushed by the end-of-stream drain may be returned or only
 					// logged (the property does not say; the drain goes on either way): optional entry.
@@ -611,7 +605,7 @@ func (filters) Execute(scAny any, keepLog bool) *core.Outcome {
 					}
 					continue
 				}
-				for _, x := range obs[g.resAt:end] {
+				for _, x := range perGroup[gi] {
 					if errClass(x.Err) != "ErrNoMorePackets" {
 						wantSeq = append(wantSeq, resKey(x.D, x.Err))
 					}
@@ -659,6 +653,57 @@ func (filters) Execute(scAny any, keepLog bool) *core.Outcome {
 	}
 	out.Steps = out.Evals
 	return out
+}
+
+// groupResults attributes the results of the observer pass to the parser calls. Before the
+// end-of-stream drain a call's results are the ones delivered until the next call (NextData
+// returns between two calls). The drain may hand over all pending groups before delivering
+// anything, or one per call: there a datum belongs to the drain group of its PID (one pending
+// group per PID), an error to the most recent call.
+func groupResults(groups []groupRec, obs []DResult) [][]DResult {
+	res := make([][]DResult, len(groups))
+	firstDrain := len(groups)
+	for gi, g := range groups {
+		if g.drain {
+			firstDrain = gi
+			break
+		}
+	}
+	for gi := 0; gi < firstDrain; gi++ {
+		end := len(obs)
+		if gi+1 < len(groups) {
+			end = groups[gi+1].resAt
+		}
+		if groups[gi].resAt <= end && end <= len(obs) {
+			res[gi] = obs[groups[gi].resAt:end]
+		}
+	}
+	if firstDrain == len(groups) {
+		return res
+	}
+	r0 := groups[firstDrain].resAt
+	for i := r0; i < len(obs); i++ {
+		x := obs[i]
+		at := -1
+		if x.D != nil {
+			for gi := firstDrain; gi < len(groups); gi++ {
+				if groups[gi].pid == x.D.PID {
+					at = gi
+				}
+			}
+		}
+		if at < 0 {
+			for gi := firstDrain; gi < len(groups); gi++ {
+				if groups[gi].resAt <= i {
+					at = gi
+				}
+			}
+		}
+		if at >= 0 {
+			res[at] = append(res[at], x)
+		}
+	}
+	return res
 }
 
 func hasKind(m *refts.Model, k string) bool {
